@@ -16,6 +16,11 @@ func (c *Conversation) UseExtraSymmetricKey(usage uint32, usageData []byte) ([]b
 		return nil, nil, newOtrError("cannot send message in current state")
 	}
 
+	if len(usageData) > 0xffff-4 {
+		// the length field of a TLV has 16 bits: it must not wrap around
+		return nil, nil, newOtrError("usage data too long for a TLV")
+	}
+
 	t := tlv{
 		tlvType:   tlvTypeExtraSymmetricKey,
 		tlvLength: 4 + uint16(len(usageData)),
